@@ -142,8 +142,8 @@ def run_check(tier, seed):
     r = run.rng
     basic.load_theory('logic_base')
     thys = ['logic', 'set', 'function', 'nat'] if tier == 'quick' else ['logic_base', 'logic', 'set', 'function', 'nat', 'int', 'list', 'order', 'real', 'hoare', 'lattice']
-    steps = library_steps(run, thys, r, 12 if tier == 'quick' else 120)
-    cap = 500 if tier == 'quick' else 8000
+    steps = library_steps(run, thys, r, 12 if tier == 'quick' else 40)
+    cap = 500 if tier == 'quick' else 2500
     if len(steps) > cap:
         r.shuffle(steps)
         steps = steps[:cap]
@@ -221,7 +221,7 @@ def run_check(tier, seed):
     run.cov['rule'] = ('macro steps (level >= 1 or unset) of up to %d recorded proofs per theory (%s), each judged in its own context; 15%% with a premise '
                        'dropped, 10%% with premises permuted, 7%% with the goal replaced by another recorded goal; generated imp_conj / imp_disj goals (members '
                        'from 8 atoms, random nesting, subset / superset / extra member), resolution on two clauses, nat_norm on polynomial (non-)identities; '
-                       'non-trivial = both modes succeed and agree' % (12 if tier == 'quick' else 120, ', '.join(thys)))
+                       'non-trivial = both modes succeed and agree' % (12 if tier == 'quick' else 40, ', '.join(thys)))
     run.assumptions = ['the expansion is judged by the implementation checker (kernel.theory.check_proof at check_level 0); its meaning is given by the C02 '
                        'theorem check_sound and by trust_level_conservative', 'macros without an expansion (level 0 oracles) are outside C04 (see C05, C06, C16, C18)']
     return run.finish()
